@@ -34,4 +34,11 @@ theorem status_shape :
     Generated.TaskLane.statusLoadsLastPanic = true ∧
     Generated.TaskLane.lastPanicType = "atomic.Pointer[any]" := by decide
 
+/-- where the `verifAt` hook calls sit: the trace acceptor (Glb/Driver/TaskLaneTrace.lean) reads a logged
+    point as "this goroutine has reached instruction n" with exactly this mapping -/
+theorem hook_points :
+    Generated.TaskLane.queueProgHooks = [("q.took", 1), ("q.counted", 2), ("q.blocking", 4), ("q.handed", 5)] ∧
+    Generated.TaskLane.workerProgHooks = [("w.got", 3)] ∧
+    Generated.TaskLane.pushProgHooks = [("p.enter", 0), ("p.inner", 1)] := by decide
+
 end Glb.Tie.TaskLane
